@@ -338,10 +338,51 @@ MUTANTS = [
          new="            if loader and target_i in targets:\n                # Found it! No need to make it or look in other frontends"),
 ]
 
+# ---------------------------------------------------------------------------- several targets in one request
+def sym_multitarget(via, obj=True):
+    """get_array / make of SEVERAL same-kind targets (get_iter wraps them in a temporary merge plugin): every requested
+    type is a target as far as its save policy is concerned."""
+    import strax
+
+    types = ["src", "m1", "m2"]
+    sw = {d: fresh_int(f"sw_{d}", 0, 3) for d in types}
+    insave = {d: fresh_bool(f"save_{d}") for d in types}
+    P = build("diamond", dict(sw, mg=NEVER), obj=obj)[:3]
+    MemFrontend, _, _ = ctx.make_storage_classes()
+    st = ctx.make_context(P, storage=[MemFrontend()])
+    targets = ("m1", "m2")
+    outcome = "ok"
+    try:
+        if via == "make":
+            st.make(RUN, targets, save=SymSet(insave), processor="single_thread", progress_bar=False)
+        else:
+            st.get_array(RUN, targets, save=SymSet(insave), processor="single_thread", progress_bar=False)
+    except ValueError:
+        outcome = "ValueError"
+    never_in_save = sor(*[sand(sw[d] == NEVER, insave[d]) for d in types])
+    prove(iff(never_in_save, outcome == "ValueError"), f"multitarget:ValueError iff a NEVER-save type is listed in save= ({outcome})")
+    if outcome != "ok":
+        return outcome
+    for d in types:
+        should = sor(sw[d] == ALWAYS, sand(sw[d] == TARGET, d in targets), sand(sw[d] == EXPLICIT, insave[d]))
+        got = st.is_stored(RUN, d)
+        prove(iff(should, got), f"multitarget:{d} stored={got} differs from its save policy (requested targets {targets})")
+    return outcome
+
+
+def nat_multitarget(params, model):
+    with warnings.catch_warnings():
+        warnings.simplefilter("ignore")
+        label = core.concrete_run(lambda: sym_multitarget(**params, obj=False), model)
+    return {"ok": label is None, "detail": label or "matches the save policies", "label": label}
+
+
 OBLIGATIONS = [
     Ob("components", sym_components, _grid, nat_components, setup=_setup, witnesses=1,
        doc="plugins / loaders / savers / raised error == declarative specification, for ALL stored flags and policies"),
     Ob("counts", sym_counts, _g_counts, nat_counts, setup=_setup, witnesses=0,
        doc="real run: compute calls per plugin == chunks if it must run else 0"),
+    Ob("multitarget", sym_multitarget, lambda tier: [dict(via="make"), dict(via="get_array")], nat_multitarget,
+       setup=_setup, witnesses=1, doc="several same-kind targets in one request: each is saved as its policy says"),
     Ob("twin", sym_twin, lambda tier: [dict()], None, setup=_setup, expect_cex=True),
 ]
